@@ -224,6 +224,8 @@ type ShardExecuteContext struct {
 
 	GroupingContext         GroupingContext // after get grouping context if it has grouping query
 	SeriesIDsAfterFiltering *roaring.Bitmap // after data filter
+
+	releaseFns []func() // resources which the query holds until it completes(like kv snapshot under grouping scanners)
 }
 
 // NewShardExecuteContext creates a shard execute context.
@@ -243,11 +245,20 @@ func (ctx *ShardExecuteContext) IsSeriesIDsEmpty() bool {
 	return ctx.SeriesIDsAfterFiltering.IsEmpty()
 }
 
+// OnRelease registers a function which is invoked when the shard context is released.
+func (ctx *ShardExecuteContext) OnRelease(fn func()) {
+	ctx.releaseFns = append(ctx.releaseFns, fn)
+}
+
 // Release releases shard context's resource after query.
 func (ctx *ShardExecuteContext) Release() {
 	if ctx.TimeSegmentContext != nil {
 		ctx.TimeSegmentContext.Release()
 	}
+	for _, fn := range ctx.releaseFns {
+		fn()
+	}
+	ctx.releaseFns = nil
 }
 
 // GroupingSeriesAgg represents grouping series aggregator.
